@@ -361,9 +361,16 @@ class DeclareImplicitArraysVisitor(BasicConstructVisitor):
     _initialize_vars: bool
     _referenced_var_names: Set[str]
 
-    def __init__(self, *, dimmed_var_names: Set[str], initialize_vars: bool = False):
+    def __init__(
+        self,
+        *,
+        dimmed_var_names: Set[str],
+        initialize_vars: bool = False,
+        default_str_storage: int = b09.DEFAULT_STR_STORAGE,
+    ):
         self._dimmed_var_names = dimmed_var_names
         self._initialize_vars = initialize_vars
+        self._default_str_storage = default_str_storage
         self._referenced_var_names = set()
 
     def visit_array_ref(self, array_ref: BasicArrayRef) -> None:
@@ -375,6 +382,13 @@ class DeclareImplicitArraysVisitor(BasicConstructVisitor):
 
     @property
     def dim_statements(self) -> List[BasicStatement]:
+        dim_statements = self._dim_statements
+        for dim_statement in dim_statements:
+            dim_statement.default_str_storage = self._default_str_storage
+        return dim_statements
+
+    @property
+    def _dim_statements(self) -> List[BasicDimStatement]:
         return [
             BasicDimStatement(
                 [
